@@ -173,6 +173,9 @@ def run(ctx):
     dry = sum(v for k, v in ctx.histogram.items() if k.startswith("dry "))
     if ctx.evaluations > 20 and dry < 3 * ctx.evaluations:
         raise common.InfraError("degenerate distribution: %d dry runs in %d histories" % (dry, ctx.evaluations))
+    cli = sum(v for k, v in ctx.histogram.items() if k.startswith("cli dry ") and "/" in k)
+    if ctx.evaluations > 40 and cli < ctx.evaluations // 2:
+        raise common.InfraError("degenerate distribution: %d dry runs through the command line in %d histories" % (cli, ctx.evaluations))
     if ctx.evaluations > 20 and ctx.distinct_nontrivial < ctx.evaluations * 0.3:
         raise common.InfraError("degenerate distribution: %d non-trivial of %d" % (ctx.distinct_nontrivial, ctx.evaluations))
 
